@@ -84,7 +84,11 @@ def find_function(target):
     """'rig/geometry.py::Class.method' (or nested 'f.g') -> (ModuleInfo, node, class node or None)"""
     rel, qual = target.split("::")
     name = rel[:-3].replace("/", ".")
-    mi = load_module(name)
+    if rel.startswith("specs/"):
+        # a scenario function defined in a spec module (it calls the real code, which is inlined)
+        mi = load_module(name, os.path.join(os.path.dirname(os.path.dirname(os.path.abspath(__file__))), rel))
+    else:
+        mi = load_module(name)
     if mi is None:
         raise KeyError("no such file: %s" % rel)
     parts = qual.split(".")
